@@ -258,3 +258,13 @@ package encoder
 //@   loop 1: invariant 0 <= i && i <= numEcBytesInBlock && len(ecBytes) == numEcBytesInBlock && fresh(ecBytes) && numDataBytes == len(dataBytes) && len(toEncode) == numDataBytes + numEcBytesInBlock && arr(ecBytes) != arr(dataBytes)
 //@   loop 1: invariant forall k int :: 0 <= k && k < i ==> int(ecBytes[k]) == toEncode[numDataBytes + k]
 //@   loop 1: decreases numEcBytesInBlock - i
+
+// ---------------------------------------------------------------- data placement (8.7.3) and masking (8.8), C07 / C01
+// every module written by embedDataBits is either the data bit just consumed or, once the data is used up, a remainder bit 0 -- in
+// both cases XORed with the mask condition of that module (the whole encoding region is masked, remainder bits included)
+//@ func embedDataBits(dataBits *gozxing.BitArray, maskPattern int, matrix *ByteMatrix) (e gozxing.WriterException)
+//@   property C07 C01
+//@   opt check=asserts
+//@   requires dataBits != nil && matrix != nil && gozxing.wfBA(dataBits) && -1 <= maskPattern && maskPattern <= 7
+//@   let m = maskPattern != -1 && decoder.maskISO(maskPattern, arg2, arg1)
+//@   assert call(SetBool,0): arg2 * arg1 >= 0 ==> (bitIndex >= 1 && bitIndex <= dataBits.size && arg3 == (gozxing.bit(dataBits, bitIndex - 1) != m)) || (bitIndex >= dataBits.size && arg3 == m)
